@@ -580,6 +580,55 @@ func execHistory(se *session, w, h int, ops []shadow.Op, eo execOpts) *viol {
 			if v := check(tag, true); v != nil {
 				return v
 			}
+		case "failshow":
+			// the terminal stops accepting output in the middle of a Show; the next Show finds
+			// nothing changed and must not write cell content (whatever was lost is lost: the
+			// application repairs the display with Sync)
+			if !eo.props["C13"] || eo.props["C01"] {
+				continue
+			}
+			ft.Locked(func() { ft.FailWriteAfter = o.X })
+			show()
+			ft.Locked(func() { ft.FailWriteAfter = -1 })
+			show()
+			for i := range term.Cells {
+				if term.Cells[i].Stamp == term.Stamp {
+					return &viol{"C13", "idle-show-wrote-cell:after-write-error", fmt.Sprintf("%s: the Show() after a Show() whose output the tty refused (after %d bytes) wrote cell (%d,%d) although nothing changed in between", tag, o.X, i%m.W, i/m.W)}
+				}
+			}
+			app(func() { s.Sync() })
+			if v := check(tag, true); v != nil {
+				return v
+			}
+		case "suspres":
+			// the terminal goes to another program and comes back: whatever that program left
+			// on it, the first Show after Resume re-establishes the logical contents
+			// (the statement does not say what survives a Suspend: the application releases its
+			// locks and stores everything again, as applications do after taking the terminal back)
+			app(func() { _ = s.Suspend() })
+			scribble(ft, term, '@')
+			app(func() { _ = s.Resume() })
+			for i := range m.C {
+				if m.C[i].Lock {
+					// (only where something is locked: unlocking forces a repaint, which would
+					// hide a screen that wrongly believes its cells are still displayed)
+					x, y := i%m.W, i/m.W
+					app(func() { s.LockRegion(x, y, 1, 1, false) })
+					m.C[i].Lock = false
+					unlocked[i] = true
+				}
+			}
+			for y := 0; y < m.H; y++ {
+				// right to left: a cell hidden under a wide rune is stored before that rune
+				for x := m.W - 1; x >= 0; x-- {
+					c := m.C[y*m.W+x]
+					app(func() { s.SetContent(x, y, c.R, append([]rune(nil), c.Comb...), c.St.Style()) })
+				}
+			}
+			show()
+			if v := check(tag, true); v != nil {
+				return v
+			}
 		case "resize", "resizecb":
 			if o.W == m.W && o.H == m.H {
 				continue
